@@ -186,6 +186,10 @@ class Driver:
             out['during'] = 'from_file'
         return out
 
+    def op_recalc(self, op):
+        model = self.model
+        return self.actor.call(outcome_of, lambda: model.recalculate())
+
     def op_trim(self, op):
         model = self.model
         return self.actor.call(
